@@ -35,7 +35,8 @@ Extend == /\ phase = "build" /\ Len(lay) < MaxM
                 /\ lay' = Append(lay, l)
           /\ UNCHANGED <<phase, P, now, hist>>
 
-Version(c, t) == [to |-> 0, sh |-> [s \in Sizes |-> PShard(c, s, 0, t)]]
+Version(c, t) == [to |-> 0, sh |-> [s \in Sizes |-> PShard(c, s, 0, t)],
+                  c |-> [mem |-> c.mem, st |-> c.st, sts |-> c.sts]]      \* content, for counterexamples
 
 Start ==
     /\ phase = "build" /\ Len(lay) >= 1
@@ -85,7 +86,7 @@ Spec == Init /\ [][Next]_vars
 Running == phase = "run"
 Cur == hist[Len(hist)].sh
 
-Cex(name, info) == PrintT(ToJson([cex |-> name, P |-> P, now |-> now, info |-> info])) /\ FALSE
+Cex(name, info) == PrintT(ToJson([cex |-> name, kind |-> "part", C |-> P, now |-> now, shards |-> Cur, info |-> info])) /\ FALSE
 
 (* right-sized and only active partitions *)
 PSizeFormula ==
@@ -103,7 +104,8 @@ PConsistency ==
     Running => \A W \in Neighbours :
         POneApart(P, W) =>
             \A s \in Sizes : ConsistencyOK(Cur[s], PShard(W, s, 0, now))
-                               \/ Cex("PConsistency", [size |-> s, other |-> W])
+                               \/ Cex("PConsistency", [size |-> s, c |-> [mem |-> W.mem, st |-> W.st, sts |-> W.sts],
+                                                        other |-> PShard(W, s, 0, now)])
 
 InWindow(v, L) == hist[v].to = 0 \/ hist[v].to >= now - L
 Lookbacks == (1..(now - T0 + 1)) \cup {now - 1}
@@ -112,7 +114,7 @@ PLookbackSuperset ==
     Running => \A s \in Sizes : \A L \in Lookbacks :
         LET past == {hist[v].sh[s] : v \in {w \in 1..Len(hist) : InWindow(w, L)}}
         IN LookbackOK(PShard(P, s, L, now), past, P.mem)
-              \/ Cex("PLookbackSuperset", [size |-> s, L |-> L, hist |-> hist])
+              \/ Cex("PLookbackSuperset", [size |-> s, L |-> L, lb |-> PShard(P, s, L, now), hist |-> hist])
 
 (* the look-back answer never contains a pending partition, nor an inactive one that turned inactive before the window *)
 PLookbackMembers ==
